@@ -388,8 +388,15 @@ def c11_7(R):
         if any(isinstance(p, list) and p and p[0] == "i" for p in pr) and s.rv is not None and s.rv.kind in ("use", "cast"):
             il = [p[1] for p in pr if isinstance(p, list) and p and p[0] == "i"][0]
             idx_writes.append((s, il))
-    ids = [(s, il) for s, il in idx_writes if s.rv.ops[0].kind == "const" and (s.rv.ops[0].const_item or "").startswith("raw::EXT_")]
-    terms = [(s, il) for s, il in idx_writes if s.rv.ops[0].kind == "const" and s.rv.ops[0].const_item == "raw::NO_NEXT_EXT"]
+    def stored_const(s):
+        """the named constant a store writes - directly, or through a variable bound to it (an argument of an expanded helper)"""
+        o = s.rv.ops[0]
+        if o.kind == "const":
+            return o.const_item or ""
+        t = trace(b, o)
+        return (t.root[1].const_item or "") if t.kind == "const" and not t.fields else ""
+    ids = [(s, il) for s, il in idx_writes if stored_const(s).startswith("raw::EXT_")]
+    terms = [(s, il) for s, il in idx_writes if stored_const(s) == "raw::NO_NEXT_EXT"]
     R.floor("extension id stores in serialize", len(ids), 2)
     R.floor("NO_NEXT_EXT stores in serialize", len(terms), 2)
     ptrs = {copy_root(b, Place({"l": il, "p": []})) for s, il in ids}
